@@ -20,7 +20,7 @@
 //!                                    subscription identifier / correlation data / payload / topic / reason string
 //!   END                              close everything, report panicked / stuck tasks
 //! Items (no spaces; values hex, "-" = empty): raw;<hex> | connect;id=..;ka=..;clean=..[;user=..;pass=..]
-//!   [;wt=..;wm=..;wq=..;wr=..][;v=4|5][;wdelay=..;sexp=..;tam=..] | subscribe;pkid=..;f=..;q=..[;sid=..] |
+//!   [;wt=..;wm=..;wq=..;wr=..][;v=4|5][;wdelay=..;sexp=..;tam=..;rmax=..;mps=..] | subscribe;pkid=..;f=..;q=..[;sid=..] |
 //!   unsubscribe;pkid=..;f=.. | publish;t=..;p=..;q=..;pkid=..;r=..;d=..[;pfi=..;mei=..;alias=..;rt=..;cd=..;
 //!   up=<k>.<v>,..;sid=n,n;ct=..] | puback;pkid=.. | pubrec | pubrel | pubcomp | pingreq | disconnect
 //! Time is real (the router is another thread); absence is observed through fences, not sleeps.
@@ -201,6 +201,14 @@ fn encode(item: &str, conn_v5: bool, out: &mut BytesMut) -> Result<(), String> {
                 }
                 if m.contains_key("tam") {
                     props.topic_alias_max = Some(n(&m, "tam", 0) as u16);
+                    any = true;
+                }
+                if m.contains_key("rmax") {
+                    props.receive_maximum = Some(n(&m, "rmax", 0) as u16);
+                    any = true;
+                }
+                if m.contains_key("mps") {
+                    props.max_packet_size = Some(n(&m, "mps", 0) as u32);
                     any = true;
                 }
                 let c = c5::Connect {
